@@ -93,3 +93,35 @@ Check C13_replay_refines_reference :
   (forall k, c_clogs s k = q_logs r k) /\ c_reg s = q_reg r /\ c_items s = q_items r /\ c_term s = q_term r /\
   c_nsrc s = (if q_conn r then 1 else 0).
 Print Assumptions C13_replay_refines_reference.
+
+(* publish: the same for source.publish() - subscribers registered at the inner subject, connect() / the connection's
+   unsubscribe - for EVERY call history in which connect() is not called while a connection is live (the reference
+   flags that case, q_dbl, and defines nothing for it): every subscriber present sees what the source emits while a
+   connection is live; exactly one source subscription while connected, none otherwise. *)
+From RXP Require Import ConnKPub.
+Theorem C13_publish_refines_reference :
+  forall script, NoDup (sub_handles script) ->
+  let s := fold_left (ck_step CPublish) script ck0 in
+  let r := fold_left (cref_step CPublish None) script cref0 in
+  q_dbl r = false ->
+  (forall k, c_clogs s k = q_logs r k) /\ c_reg s = q_reg r /\ c_nsrc s = (if q_conn r then 1 else 0).
+Proof. exact publish_refines_reference. Qed.
+Check C13_publish_refines_reference :
+  forall script, NoDup (sub_handles script) ->
+  let s := fold_left (ck_step CPublish) script ck0 in
+  let r := fold_left (cref_step CPublish None) script cref0 in
+  q_dbl r = false ->
+  (forall k, c_clogs s k = q_logs r k) /\ c_reg s = q_reg r /\ c_nsrc s = (if q_conn r then 1 else 0).
+Print Assumptions C13_publish_refines_reference.
+
+(* non-vacuity: subscribe, emit (nobody connected: lost), connect, emit, second subscriber, emit, disconnect, emit,
+   reconnect under another handle, complete *)
+Definition c13_publish_script : list action :=
+  [DSub 0 (PConn 0) []; DEmit 0 (Nx (VInt 1)); DConnect 0 0; DEmit 0 (Nx (VInt 2)); DSub 1 (PConn 0) []; DEmit 0 (Nx (VInt 3));
+   DDisconnect 0; DEmit 0 (Nx (VInt 4)); DConnect 0 1; DEmit 0 (Nx (VInt 5)); DEmit 0 Co].
+Example C13_example_publish :
+  let r := fold_left (cref_step CPublish None) c13_publish_script cref0 in
+  let s := fold_left (ck_step CPublish) c13_publish_script ck0 in
+  (q_dbl r, c_clogs s 0, c_clogs s 1) =
+  (false, [Nx (VInt 2); Nx (VInt 3); Nx (VInt 5); Co], [Nx (VInt 3); Nx (VInt 5); Co]).
+Proof. vm_compute. reflexivity. Qed.
